@@ -67,6 +67,7 @@ for _pid, _title, _what in [
   ("C06", "normalisation preserves acceptance", "extended validator (NOT_enum / NOT_multipleOf) agrees on the schema and on normalize(schema) over an instance grid (equality for full merge, implication for reduced merge)"),
   ("C16", "normal form and termination", "independent normal-form walker, upstream check_normalized, 10 s alarm / RecursionError on guarded recursion"),
   ("C11", "termination on recursive inputs", "no RecursionError / 10 s alarm on well-formed productive-or-acyclic graphs (stream G, also RecursionError <-> OutOfFuel in the model correspondence), on recursive grammars whose non-terminals derive finite strings, and on guarded recursive JSON Schemas that accept a finite instance; Coq: C11_loop_rounds, C11_entries_bounded"),
+  ("C07", "XML documents validate / do not validate", "xmlschema validates every document labelled valid and rejects every document labelled invalid (schemas without emptiable choice branches), numeric draws forced to both ends of their range; the Coq model of xml_schema/parse.py is not written yet, so this check is currently oracle-only"),
   ("C08", "grammar samples derivable", "chart-based derivability of every sample, occurrence-wise use of every terminal and range end"),
 ]:
     CLAIMED[_pid] = dict(cat="other", tech="model-implementation correspondence of executable Coq models + independent oracle; Coq theorems in progress",
